@@ -224,6 +224,7 @@ func (p Statements) PrettyPrint(ps *PrintState) *PrintState {
 	}
 	ps.IndentLevel++
 	ps.ExpressionPrecedence = LOWEST
+	ps.prev = nil // the first statement of a block has no previous one (was leaking from an earlier block).
 	var i int
 	for _, s := range p.Statements {
 		if ps.Compact {
